@@ -47,6 +47,7 @@ from netqasm.qlink_compat import (
     LinkLayerOKTypeK,
     LinkLayerOKTypeM,
     LinkLayerOKTypeR,
+    RandomBasis,
     RequestType,
     ReturnType,
     get_creator_node_id,
@@ -1068,6 +1069,9 @@ class Executor:
             else:
                 kwargs[field] = arg
         kwargs["type"] = RequestType(kwargs["type"])  # type: ignore
+        # The array holds plain integers; the link layer interface expects enum members.
+        kwargs["random_basis_local"] = RandomBasis(kwargs["random_basis_local"])
+        kwargs["random_basis_remote"] = RandomBasis(kwargs["random_basis_remote"])
 
         return LinkLayerCreate(**kwargs)
 
